@@ -607,7 +607,7 @@ func TestC19(t *testing.T) {
 		}
 		run.Exhaustive("after-close / peer-closed / read-timeout / unblock behaviour on each of the 4 carriers; stall with read timeout and with decode error")
 	}
-	run.Rapid(t, "flow", ev.Pick(120, 12000), func(rt *rapid.T) {
+	run.Rapid(t, "flow", ev.Pick(250, 12000), func(rt *rapid.T) {
 		c := genFlow(rt)
 		if v := exec(c); v != nil {
 			run.Candidate(v.sig, v.msg, c)
@@ -615,7 +615,7 @@ func TestC19(t *testing.T) {
 		}
 	})
 	// fault enumeration on the in-memory carrier
-	run.Rapid(t, "faults", ev.Pick(12, 1500), func(rt *rapid.T) {
+	run.Rapid(t, "faults", ev.Pick(25, 1500), func(rt *rapid.T) {
 		c := genFlow(rt)
 		c.Carrier = "mem"
 		if c.Senders > 4 {
